@@ -587,14 +587,25 @@ func canonicaliseBranches(fn *ssa.Function) {
 			continue
 		}
 		bo, ok := iff.Cond.(*ssa.BinOp)
-		if !ok || bo.Op != token.NEQ {
+		if !ok {
 			continue
+		}
+		neg := map[token.Token]token.Token{token.NEQ: token.EQL, token.GEQ: token.LSS, token.LEQ: token.GTR}
+		n, okn := neg[bo.Op]
+		if !okn {
+			continue
+		}
+		// only integer/other ordered comparisons whose negation is exact (floats: NaN makes !(a >= b) differ from a < b)
+		if bo.Op != token.NEQ {
+			if bt, okb := bo.X.Type().Underlying().(*types.Basic); !okb || bt.Info()&types.IsInteger == 0 {
+				continue
+			}
 		}
 		refs := bo.Referrers()
 		if refs == nil || len(*refs) != 1 {
 			continue
 		}
-		bo.Op = token.EQL
+		bo.Op = n
 		b.Succs[0], b.Succs[1] = b.Succs[1], b.Succs[0]
 	}
 }
